@@ -3,7 +3,7 @@
    STUN-shaped or not): "unmodified" is identity of the token; packetio.Buffer is assumed FIFO. *)
 From Coq Require Import ZArith Bool List.
 From Ice Require Import Model.AgentTypes Model.AgentCore Model.AgentObs Model.AgentMonitors Gen.Consts
-     Proofs.AgentFrame Proofs.AgentC07 Proofs.AgentC06 Proofs.AgentC03Sel Proofs.AgentRem Proofs.AgentEnds Proofs.AgentSentStats Model.PairMonitor Model.TwoAgents Model.TwoAgentsData Proofs.TwoAgentsDataProofs Proofs.AgentC07Valid.
+     Proofs.AgentFrame Proofs.AgentC07 Proofs.AgentC06 Proofs.AgentC03Sel Proofs.AgentRem Proofs.AgentEnds Proofs.AgentSentStats Model.PairMonitor Model.TwoAgents Model.TwoAgentsData Proofs.TwoAgentsDataProofs Proofs.AgentC07Valid Proofs.TwoAgentsProofs Proofs.TwoAgentsReach Proofs.TwoAgentsDataReach.
 Import ListNotations.
 Local Open Scope Z_scope.
 
@@ -190,6 +190,19 @@ Theorem C07_reader_only_holds_what_the_peer_wrote : forall cfga cfgb t lua lpa l
 Proof. exact reader_only_holds_what_the_peer_wrote. Qed.
 Print Assumptions C07_reader_only_holds_what_the_peer_wrote.
 
+(* ... and it travels only where connectivity was verified: between two full agents, over any topology and under every
+   admissible schedule (remote candidates handed over are fresh objects; API calls, ticks, STUN and data deliveries,
+   drops and duplications in any order), every application datagram in flight -- hence every datagram a reader is ever
+   handed -- goes to a socket from an address that reach each other in BOTH directions
+   ([dflight_ok t f]: receiver socket [d_lh f] and sender address [d_src f] are the two ends of a link of [t] that
+   is up both ways) *)
+Theorem C07_data_travels_only_between_bidirectionally_reachable_endpoints : forall cfga cfgb t lua lpa lub lpb ops,
+  cf_lite cfga = false -> cf_lite cfgb = false -> topo_wf t ->
+  dsys_run_ok cfga cfgb t (dsys_init lua lpa lub lpb) ops ->
+  Forall (dflight_ok t) (d_net (dsys_run cfga cfgb t (dsys_init lua lpa lub lpb) ops)).
+Proof. exact data_travels_only_between_bidirectionally_reachable_endpoints. Qed.
+Print Assumptions C07_data_travels_only_between_bidirectionally_reachable_endpoints.
+
 (* single operations: a written datagram carries exactly the payload given to Write; the reader's queue grows only by
    the datagram just delivered; only Read delivers, and from the queue *)
 Theorem C07_writes_are_unmodified : forall cfg o s,
@@ -224,4 +237,15 @@ Module C07_example_pair.
     let d := dsys_run (cfg 5) (cfg 6) topo (dsys_init 1 2 3 4) ops in
     s_buf (sy_b (d_sys d)) = [pl; pl] /\ d_net d = [] /\ written_by true ops = [pl].
   Proof. vm_compute. repeat split. Qed.
+  (* the reachability theorem's hypotheses hold on this run, and two datagrams are in flight when it applies *)
+  Definition ops_flight := connect ++ [DSys (SApi true (Write pl)); DDup 0].
+  Example flight_hypotheses_hold :
+    topo_wf topo /\ dsys_run_ok (cfg 5) (cfg 6) topo (dsys_init 1 2 3 4) ops_flight /\
+    length (d_net (dsys_run (cfg 5) (cfg 6) topo (dsys_init 1 2 3 4) ops_flight)) = 2%nat.
+  Proof.
+    split; [split; intros i Hi; (destruct i as [|i]; [split; reflexivity|cbn in Hi; exfalso; inversion Hi as [|? Hi']; inversion Hi'])|].
+    split; [|vm_compute; reflexivity].
+    vm_compute. repeat split; try (intros [] ; discriminate); try (intros l El; injection El as <-; reflexivity);
+      try (intros l El; discriminate El); try (intros H; destruct H as [H|[]]; discriminate H); try (intros []).
+  Qed.
 End C07_example_pair.
